@@ -181,7 +181,9 @@ def leanchecker(mods: list[str], timeout: int = 1500) -> tuple[bool, str]:
 
 def run_driver(driver: str, cases: list[dict], timeout: int = 1500) -> list[dict]:
     """pipe one JSON object per line to lean --run Driver/<driver>.lean"""
-    ok, out = lake_build(["Driver"])
+    # only this driver: a proof obligation of another property that fails on the current tree must not
+    # take this property's check down with it (drivers import model and generated files, never Props)
+    ok, out = lake_build([f"Driver.{driver}"])
     if not ok:
         raise InfraError("driver build failed:\n" + out[-3000:])
     data = "\n".join(json.dumps(c, separators=(",", ":")) for c in cases) + "\n"
